@@ -19,6 +19,18 @@ def pointOp (op : String) (a : List String) : Option (List String) :=
   | "PT.add", [x1, y1, z1, x2, y2, z2] =>
       let p := parsePt x1 y1 z1; let q := parsePt x2 y2 z2
       some (ptOut (Element.add FL p (some q)) ++ [kv "a" (showPt q)] ++ spec2 padd p q)
+  | "PT.viaid", [_, _, _, x2, y2, z2, _route] =>
+      -- a variable that held a point and was then set to the identity through the API (`Identity()`, `Multiply(nil)`,
+      -- `Decode(00)`): the model of all three routes is the canonical identity, whatever the variable held before
+      let o := Element.identity FL; let q := parsePt x2 y2 z2
+      let enc (r : Pt L4) := showBytes (encode r)
+      some ([kv "c" (enc (Element.add FL q (some o))), kv "c1" (enc (Element.add FL o (some q))),
+             kv "c2" (enc (Element.subtract FL q (some o))), kv "c3" (enc (Element.add FL (Element.double FL o) (some q))),
+             kv "c4" (enc (Element.add FL (Element.negate FL o) (some q))),
+             kv "c5" (b2s (Element.isIdentity FL (Element.add FL o (some o))))] ++
+        (match toAffine q with
+         | some a => [kv "s_c" (encS a), kv "s_c1" (encS a), kv "s_c2" (encS a), kv "s_c3" (encS a), kv "s_c4" (encS a), kv "s_c5" "1"]
+         | none => []))
   | "PT.addnil", [x1, y1, z1] => let p := parsePt x1 y1 z1
       some (ptOut (Element.add FL p none) ++ spec1 id p)
   | "PT.addself", [x1, y1, z1] => let p := parsePt x1 y1 z1
